@@ -528,7 +528,7 @@ pub fn prop(tier: Tier) -> Prop {
   };
   Prop {
     id: "C16",
-    rule: format!("three parts: (stars) ALL star re-export graphs over {n} modules (every subset of the directed edges, cycles and diamonds included) x own-export assignments from {{}}, {{a}}, {{b}}, {{a, default}}: the resolved export set of every module must equal the least fixpoint of own names plus non-default names of star targets, own names resolving directly; (trees) the generated packages of C09 (51 declaration templates incl. merged declarations, overloads, namespaces, class members, expando, import/export aliases): every symbol table is a tree consistent with its parent pointers, declaration names and ranges are sound, all ids exist, go-to-definition from every symbol terminates; (corpus) the symbol spec corpus. Non-trivial = graph with >= 2 star edges / module set with > 12 symbols."),
+    rule: format!("four parts: (named-cycles) all 1000 re-export graphs over 3 modules mixing named re-exports and export-star, each in a child process: exported names = ES rules, go-to-definition returns; (stars) ALL star re-export graphs over {n} modules (every subset of the directed edges, cycles and diamonds included) x own-export assignments from {{}}, {{a}}, {{b}}, {{a, default}}: the resolved export set of every module must equal the least fixpoint of own names plus non-default names of star targets, own names resolving directly; (trees) the generated packages of C09 (51 declaration templates incl. merged declarations, overloads, namespaces, class members, expando, import/export aliases): every symbol table is a tree consistent with its parent pointers, declaration names and ranges are sound, all ids exist, go-to-definition from every symbol terminates; (corpus) the symbol spec corpus. Non-trivial = graph with >= 2 star edges / module set with > 12 symbols."),
     assumptions: vec![
       "the tree conditions are those of the repository's own spec helper (symbols whose declarations are all definitions must be listed by their parent) plus agreement of every child/member link with the child's parent pointer".into(),
       "termination is enforced by the per-run watchdog".into(),
